@@ -109,4 +109,446 @@ theorem reach_invA (v cb fb) (sch : List Label) : InvA (run (init v cb fb) sch) 
 theorem reach_invB (cb fb) (sch : List Label) : InvB (run (init .fixed cb fb) sch) :=
   run_induct InvB invB_step _ (invB_init cb fb) sch
 
+/-! ## more helpers -/
+
+theorem fst_nodup_unique {l : List (Nat × Bytes)} (h : (l.map (·.1)).Nodup) {a : Nat} {b b' : Bytes}
+    (h1 : (a, b) ∈ l) (h2 : (a, b') ∈ l) : b = b' := by
+  induction l with
+  | nil => cases h1
+  | cons p ps ih =>
+    simp only [List.map_cons, List.nodup_cons] at h
+    rcases List.mem_cons.mp h1 with e1 | m1 <;> rcases List.mem_cons.mp h2 with e2 | m2
+    · rw [← e1] at e2; exact ((Prod.mk.inj e2).2).symm
+    · exfalso; apply h.1; rw [← e1]; exact List.mem_map_of_mem (f := (·.1)) m2
+    · exfalso; apply h.1; rw [← e2]; exact List.mem_map_of_mem (f := (·.1)) m1
+    · exact ih h.2 m1 m2
+
+theorem blocked_enabled {s : St} (h : InvB s) (hl : s.lst = .exited) {c : Nat}
+    (hb : blocked (s.calls c).phase = true) :
+    enabled s (.send c) = true ∨ enabled s (.drain c) = true ∨ enabled s (.deliver c) = true := by
+  cases hp : (s.calls c).phase with
+  | submitted => left; simp [enabled, step, hp, hl, Lst.cleaning] <;> (split <;> simp)
+  | sent => right; left; simp [enabled, step, hp, hl, Lst.cleaning] <;> (split <;> simp)
+  | waiting =>
+    right; right
+    have hw := h.waitOwed c (by simp [hp, awaiting])
+    have hne : (s.calls c).fut ≠ .unres := by
+      intro hu; have := hw hu; simp [owed, hl] at this
+    simp only [enabled, step, hp, hl, Lst.cleaning]
+    cases hf : (s.calls c).fut with
+    | unres => exact absurd hf hne
+    | res b => simp [outcomeOf]
+    | failed e => simp [outcomeOf]
+  | idle => simp [hp, blocked] at hb
+  | checked => simp [hp, blocked] at hb
+  | registered => simp [hp, blocked] at hb
+  | done o => simp [hp, blocked] at hb
+
+def isOk : Outcome → Bool
+  | .ok _ => true
+  | _ => false
+
+/-- a call that can no longer be answered: not yet sent, or finished with an error -/
+def late : Phase → Bool
+  | .idle | .checked | .registered | .submitted => true
+  | .done o => !isOk o
+  | _ => false
+
+/-- own steps a late call still has to take before it has raised -/
+def lateRank : Phase → Nat
+  | .idle => 4
+  | .checked => 3
+  | .registered => 2
+  | .submitted => 1
+  | .done _ => 0
+  | _ => 5
+
+structure LateInv (c : Nat) (s : St) : Prop where
+  invB : InvB s
+  exited : s.lst = .exited
+  late : late (s.calls c).phase = true
+
+theorem late_step (c : Nat) (s : St) (l : Label) (s' : St) (h : LateInv c s)
+    (hs : step s l = some s') : LateInv c s' ∧ lateRank (s'.calls c).phase ≤ lateRank (s.calls c).phase := by
+  obtain ⟨hB, hl, hlate⟩ := h
+  have hB' := invB_step s l s' hB hs
+  have hw := hB.writerGone (by simp [hl])
+  refine ⟨⟨hB', ?_, ?_⟩, ?_⟩
+  all_goals (clear hB')
+  all_goals (cases l)
+  all_goals (simp only [step, hl, hw] at hs)
+  all_goals (repeat' (split at hs))
+  all_goals (try (cases hs; done))
+  all_goals (cases hs)
+  all_goals (simp only [St.setPhase, St.setFut, St.finish, St.lexit] at * <;> (try split) <;>
+    grind [late, lateRank, isOk, Lst.cleaning])
+
+/-- invariant used for `loss_anywhere_fails_pending`: from the moment the listener has left with
+    exception `e`, call `c` is either already failed with `e` or still on the cleanup's list -/
+def FailInv (e : Exc) (c : Nat) (s : St) : Prop :=
+  ((s.calls c).phase = .sent ∨ (s.calls c).phase = .waiting ∨ (s.calls c).phase = .done (.exc e)
+    ∨ (s.calls c).phase = .done .sendErr) ∧
+  s.variant = .fixed ∧
+  match s.lst with
+  | .snapped e' items => e' = e ∧ ((s.calls c).fut = .failed e ∨ ((s.calls c).fut = .unres ∧ c ∈ items))
+  | .failing e' items => e' = e ∧ ((s.calls c).fut = .failed e ∨ ((s.calls c).fut = .unres ∧ c ∈ items))
+  | .exited => (s.calls c).fut = .failed e
+  | _ => False
+
+theorem failInv_step (e : Exc) (c : Nat) (s : St) (l : Label) (s' : St) (h : FailInv e c s)
+    (hs : step s l = some s') : FailInv e c s' := by
+  obtain ⟨hp, hv, hm⟩ := h
+  cases l
+  all_goals (simp only [step] at hs)
+  all_goals (repeat' (split at hs))
+  all_goals (try (cases hs; done))
+  all_goals (cases hs)
+  all_goals (simp only [FailInv, St.setPhase, St.setFut, St.finish, St.lexit, hv] at * <;>
+    (try split) <;> grind [outcomeOf, Lst.cleaning])
+
+theorem beBytes_length (k n : Nat) : (beBytes k n).length = k := by
+  induction k generalizing n with
+  | zero => rfl
+  | succ k ih => simp [beBytes, ih]
+
+theorem beVal_be4 (n : Nat) (h : n < 4294967296) : beVal (beBytes 4 n) = n := by
+  simp [beBytes, beVal]; omega
+
+theorem encodeFrame_length (id : Nat) (body : Bytes) : (encodeFrame id body).length = 20 + body.length := by
+  simp [encodeFrame, beBytes_length]; omega
+
+/-! ------------------------------------------------------------------------------------
+  ## Property theorems (C14)
+------------------------------------------------------------------------------------- -/
+
+/-- **answer_is_own** (both variants, every schedule, any number of calls): a call returns `r`
+    only if the listener matched a frame `(c, r)` carrying the call's own id to its pending entry. -/
+theorem answer_is_own (v : Variant) (cb : Bytes) (fb : List Bytes) (sch : List Label) (c : Nat) (r : Bytes) :
+    let s := run (init v cb fb) sch
+    (s.calls c).phase = .done (.ok r) → (c, r) ∈ s.delivered :=
+  (reach_invA v cb fb sch).okDelivered c r
+
+/-- ... and at most once: no id is matched twice, so the value a call can return is unique. -/
+theorem answer_at_most_once (v : Variant) (cb : Bytes) (fb : List Bytes) (sch : List Label) :
+    let s := run (init v cb fb) sch
+    (s.delivered.map (·.1)).Nodup ∧
+    ∀ c r r', (c, r) ∈ s.delivered → (c, r') ∈ s.delivered → r = r' := by
+  have h := (reach_invA v cb fb sch).idsNodup
+  exact ⟨h, fun c r r' h1 h2 => fst_nodup_unique h h1 h2⟩
+
+/-- the ghost log grows only when the listener decodes a frame whose id is pending -/
+theorem delivered_only_by_recv (s : St) (l : Label) (s' : St) (hs : step s l = some s') :
+    s'.delivered = s.delivered ∨
+    (l = .recv ∧ ∃ id body rest, decodeFrame s.inbuf = some (id, body, rest) ∧ id ∈ s.pending ∧
+      s'.delivered = s.delivered ++ [(id, body)]) := by
+  cases l
+  all_goals (simp only [step] at hs)
+  all_goals (repeat' (split at hs))
+  all_goals (try (cases hs; done))
+  all_goals (cases hs)
+  all_goals (simp only [St.setPhase, St.setFut, St.finish, St.lexit] at * <;> (try split) <;> grind)
+
+example :
+    let sch := [Label.check 0 false, .reg 0, .check 1 false, .reg 1, .submit 1, .submit 0, .send 1, .drain 1,
+                .send 0, .drain 0, .feed (encodeFrame 1 [7]), .feed (encodeFrame 0 [9]), .recv, .recv,
+                .deliver 0, .deliver 1]
+    let s := run (init .fixed [] []) sch
+    ((s.calls 0).phase, (s.calls 1).phase) = (.done (.ok [9]), .done (.ok [7])) := by decide
+
+theorem no_stuck_waiter_aux (s : St) (hB : InvB s) (hl : s.lst = .exited)
+    (hio : ∀ l : Label, l.isIo = true → enabled s l = false) (c : Nat) :
+    blocked (s.calls c).phase = false := by
+  cases hb : blocked (s.calls c).phase with
+  | false => rfl
+  | true =>
+    rcases blocked_enabled hB hl hb with h | h | h
+    · rw [hio (.send c) rfl] at h; cases h
+    · rw [hio (.drain c) rfl] at h; cases h
+    · rw [hio (.deliver c) rfl] at h; cases h
+
+/-- **no_stuck_waiter** (repaired code): in every reachable state in which the listener has exited
+    and no io-loop step is enabled, no call is blocked in `.result()`. -/
+theorem no_stuck_waiter (cb : Bytes) (fb : List Bytes) (sch : List Label) :
+    let s := run (init .fixed cb fb) sch
+    s.lst = .exited → (∀ l : Label, l.isIo = true → enabled s l = false) →
+    ∀ c, blocked (s.calls c).phase = false := by
+  intro s hl hio c
+  exact no_stuck_waiter_aux s (reach_invB cb fb sch) hl hio c
+
+theorem no_stuck_waiter_decidable_aux (s : St) (hB : InvB s) (hl : s.lst = .exited)
+    (hidle : ioIdle s = true) : anyBlocked s = false := by
+  simp only [anyBlocked, List.any_eq_false, List.mem_range]
+  intro c hc hb
+  have hmem : ∀ l ∈ [Label.send c, .drain c, .deliver c], l ∈ ioLabels s := by
+    intro l hlm
+    simp only [ioLabels, List.mem_append, List.mem_flatMap, List.mem_range]
+    exact Or.inr ⟨c, hc, hlm⟩
+  simp only [ioIdle, List.all_eq_true] at hidle
+  rcases blocked_enabled hB hl (by simpa using hb) with h | h | h
+  · have := hidle (.send c) (hmem (.send c) (by simp)); simp [h] at this
+  · have := hidle (.drain c) (hmem (.drain c) (by simp)); simp [h] at this
+  · have := hidle (.deliver c) (hmem (.deliver c) (by simp)); simp [h] at this
+
+/-- the same with the decidable tests the driver prints (`idle=`, `blocked=`) -/
+theorem no_stuck_waiter_decidable (cb : Bytes) (fb : List Bytes) (sch : List Label) :
+    let s := run (init .fixed cb fb) sch
+    s.lst = .exited → ioIdle s = true → anyBlocked s = false := by
+  intro s hl hidle
+  exact no_stuck_waiter_decidable_aux s (reach_invB cb fb sch) hl hidle
+
+theorem cleanup_progress_aux (s : St) (h : InvB s) (hc : s.lst.cleaning = true) :
+    enabled s .clr = true ∨ enabled s .cl = true := by
+  cases hl : s.lst with
+  | listening => simp [hl, Lst.cleaning] at hc
+  | exited => simp [hl, Lst.cleaning] at hc
+  | crashed => simp [hl, Lst.cleaning] at hc
+  | iterating e todo n => exact absurd hl (h.shape e todo n)
+  | snapped e items => left; simp [enabled, step, hl]
+  | failing e items =>
+    right
+    cases items with
+    | nil => simp [enabled, step, hl]
+    | cons c rest => simp [enabled, step, hl] <;> (split <;> simp)
+
+/-- the repaired cleanup cannot die: the listener is never `crashed`, and while it is cleaning
+    its next step (`clr` / `cl`) is enabled whatever the callers do in between -/
+theorem fixed_cleanup_never_crashes (cb : Bytes) (fb : List Bytes) (sch : List Label) :
+    let s := run (init .fixed cb fb) sch
+    s.lst ≠ .crashed ∧ (s.lst.cleaning = true → enabled s .clr = true ∨ enabled s .cl = true) := by
+  intro s
+  exact ⟨(reach_invB cb fb sch).noCrash, cleanup_progress_aux s (reach_invB cb fb sch)⟩
+
+/-- **late calls never wait** (second clause of no_stuck_waiter): once the listener has exited, a
+    call that has not been sent yet can never reach `sent`/`waiting` nor return a value, whatever
+    else is scheduled -/
+theorem late_call_never_waits (cb : Bytes) (fb : List Bytes) (sch0 sch : List Label) (c : Nat) :
+    let s := run (init .fixed cb fb) sch0
+    s.lst = .exited → late (s.calls c).phase = true →
+    let s' := run s sch
+    s'.lst = .exited ∧ late (s'.calls c).phase = true ∧ blocked (s'.calls c).phase = false ∨
+      (s'.calls c).phase = .submitted := by
+  intro s hl hlate s'
+  have h : LateInv c s' :=
+    run_induct (LateInv c) (fun s l s' h hs => (late_step c s l s' h hs).1) s
+      ⟨reach_invB cb fb sch0, hl, hlate⟩ sch
+  have hlt := h.late
+  cases hp : (s'.calls c).phase with
+  | submitted => right; rfl
+  | idle => left; exact ⟨h.exited, by simp [late], by simp [blocked]⟩
+  | checked => left; exact ⟨h.exited, by simp [late], by simp [blocked]⟩
+  | registered => left; exact ⟨h.exited, by simp [late], by simp [blocked]⟩
+  | done o => left; exact ⟨h.exited, by rw [hp] at hlt; exact hlt, by simp [blocked]⟩
+  | sent => rw [hp] at hlt; simp [late] at hlt
+  | waiting => rw [hp] at hlt; simp [late] at hlt
+
+/-- ... and it raises within four of its own steps: while it has not finished, its next own step
+    is enabled and strictly lowers `lateRank` (≤ 4), and no step of anybody raises the rank -/
+theorem late_call_progress (c : Nat) (s : St) (h : LateInv c s) :
+    (∀ l s', step s l = some s' → LateInv c s' ∧ lateRank (s'.calls c).phase ≤ lateRank (s.calls c).phase) ∧
+    (lateRank (s.calls c).phase ≠ 0 →
+      ∃ l ∈ [Label.check c false, .reg c, .submit c, .send c], ∃ s', step s l = some s' ∧
+        lateRank (s'.calls c).phase < lateRank (s.calls c).phase) := by
+  refine ⟨fun l s' hs => late_step c s l s' h hs, ?_⟩
+  intro hr
+  have hw := h.invB.writerGone (by simp [h.exited])
+  have hl := h.exited
+  cases hp : (s.calls c).phase with
+  | idle =>
+    refine ⟨.check c false, by simp, ?_⟩
+    simp only [step, hp]
+    by_cases ho : s.provOpen = true
+    · exact ⟨_, by simp [ho]; rfl, by simp [St.setPhase, lateRank, upd]⟩
+    · exact ⟨_, by simp [ho]; rfl, by simp [St.setPhase, lateRank, upd]⟩
+  | checked =>
+    exact ⟨.reg c, by simp, _, by simp only [step, hp]; rfl, by simp [St.setPhase, lateRank, upd]⟩
+  | registered =>
+    exact ⟨.submit c, by simp, _, by simp only [step, hp]; rfl, by simp [St.setPhase, lateRank, upd]⟩
+  | submitted =>
+    refine ⟨.send c, by simp, s.finish c .sendErr, by simp [step, hp, hl, hw, Lst.cleaning], ?_⟩
+    simp only [St.finish, St.setPhase]; split <;> simp [lateRank, upd]
+  | done o => simp [hp, lateRank] at hr
+  | sent => have := h.late; simp [hp, late] at this
+  | waiting => have := h.late; simp [hp, late] at this
+
+theorem late_call_raises_aux (s : St) (hB : InvB s) (hl : s.lst = .exited) (c : Nat) (close : Bool)
+    (hp : (s.calls c).phase = .idle) :
+    ∃ o, ((run s [.check c close, .reg c, .submit c, .send c]).calls c).phase = .done o ∧ isOk o = false := by
+  have hw := hB.writerGone (by simp [hl])
+  have hv := hB.fixed
+  by_cases h1 : (close && !s.running) = true
+  · refine ⟨.noop, ?_, rfl⟩
+    simp [run, step, hp, h1, St.setPhase, upd]
+  · by_cases h2 : s.provOpen = true
+    · refine ⟨.sendErr, ?_, rfl⟩
+      simp [run, step, hp, h1, h2, hl, hw, hv, St.setPhase, St.finish, upd, Lst.cleaning]
+    · refine ⟨.notOpen, ?_, rfl⟩
+      simp [run, step, hp, h1, h2, St.setPhase, upd]
+
+/-- concretely: a call started after the listener has exited raises after its own four steps -/
+theorem late_call_raises (cb : Bytes) (fb : List Bytes) (sch0 : List Label) (c : Nat) (close : Bool) :
+    let s := run (init .fixed cb fb) sch0
+    s.lst = .exited → (s.calls c).phase = .idle →
+    ∃ o, ((run s [.check c close, .reg c, .submit c, .send c]).calls c).phase = .done o ∧ isOk o = false := by
+  intro s hl hp
+  exact late_call_raises_aux s (reach_invB cb fb sch0) hl c close hp
+
+/-- **loss is detected at any byte**: a listening client whose stream ended inside a frame (or
+    between frames), or whose transport failed, leaves through the cleanup with `lost` -/
+theorem loss_detected (s : St) (hl : s.lst = .listening)
+    (h : s.inErr = true ∨ (s.eof = true ∧ decodeFrame s.inbuf = none)) :
+    step s .recv = some (s.lexit .lost) := by
+  rcases h with h | ⟨h1, h2⟩
+  · simp [step, hl, h]
+  · by_cases he : s.inErr = true
+    · simp [step, hl, he]
+    · simp [step, hl, he, h1, h2]
+
+/-- every cut of a frame — inside the id, inside the length, inside the body, or before its first
+    byte — leaves an incomplete buffer (own copy of C13's `incomplete_tail`) -/
+theorem cut_anywhere_incomplete (id : Nat) (body : Bytes) (hb : body.length < 4294967296) (k : Nat)
+    (hk : k < (encodeFrame id body).length) : decodeFrame ((encodeFrame id body).take k) = none := by
+  rw [encodeFrame_length] at hk
+  unfold decodeFrame
+  by_cases h20 : k < 20
+  · simp [List.length_take, encodeFrame_length]; omega
+  · have hlen : ((encodeFrame id body).take k).length = k := by
+      simp [List.length_take, encodeFrame_length]; omega
+    have hmid : (((encodeFrame id body).take k).drop 16).take 4 = beBytes 4 body.length := by
+      rw [List.drop_take, List.take_take]
+      have : min 4 (k - 16) = 4 := by omega
+      rw [this]
+      simp only [encodeFrame, List.append_assoc]
+      rw [List.drop_left' (beBytes_length 16 id)]
+      exact List.take_left' (beBytes_length 4 body.length)
+    simp only [hlen, hmid, beVal_be4 _ hb]
+    simp; omega
+
+theorem loss_fails_aux (s : St) (hB : InvB s) (sch : List Label) (c : Nat)
+    (hl : s.lst = .listening) (ha : awaiting (s.calls c).phase = true) (hf : (s.calls c).fut = .unres)
+    (hloss : s.inErr = true ∨ (s.eof = true ∧ decodeFrame s.inbuf = none))
+    (hex : (run s (.recv :: sch)).lst = .exited) :
+    ((run s (.recv :: sch)).calls c).fut = .failed .lost ∧
+      ∀ o, ((run s (.recv :: sch)).calls c).phase = .done o → o = .exc .lost ∨ o = .sendErr := by
+  have hrecv := loss_detected s hl hloss
+  have hv := hB.fixed
+  have hmem : c ∈ s.pending := hB.listenOwes hl c (by
+    cases hp : (s.calls c).phase <;> simp [hp, awaiting, active] at ha ⊢) hf
+  have h0 : FailInv .lost c (s.lexit .lost) := by
+    refine ⟨?_, ?_, ?_⟩
+    · cases hp : (s.calls c).phase <;> simp [hp, awaiting, St.lexit, hv] at ha ⊢
+    · simp [St.lexit, hv]
+    · simp [St.lexit, hv, hf, hmem]
+  have h1 : FailInv .lost c (run s (.recv :: sch)) := by
+    simp only [run, hrecv, Option.getD_some]
+    exact run_induct (FailInv .lost c) (failInv_step .lost c) _ h0 sch
+  obtain ⟨hp, _, hm⟩ := h1
+  rw [hex] at hm
+  refine ⟨hm, ?_⟩
+  intro o ho
+  rcases hp with hp | hp | hp | hp <;> rw [hp] at ho <;> cases ho <;> simp
+
+/-- **loss_anywhere_fails_pending** (repaired code): take any reachable state in which the client
+    is listening and call `c` is waiting on an unresolved future; if the connection is then lost at
+    any byte (`loss_detected`, `cut_anywhere_incomplete`), then in EVERY continuation — callers
+    registering during the cleanup included — once the listener has exited `c`'s future is failed
+    with `lost`, and `c` can only finish by raising -/
+theorem loss_anywhere_fails_pending (cb : Bytes) (fb : List Bytes) (sch0 sch : List Label) (c : Nat) :
+    let s := run (init .fixed cb fb) sch0
+    s.lst = .listening → awaiting (s.calls c).phase = true → (s.calls c).fut = .unres →
+    (s.inErr = true ∨ (s.eof = true ∧ decodeFrame s.inbuf = none)) →
+    let s' := run s (.recv :: sch)
+    s'.lst = .exited →
+      (s'.calls c).fut = .failed .lost ∧
+      ∀ o, (s'.calls c).phase = .done o → o = .exc .lost ∨ o = .sendErr := by
+  intro s hl ha hf hloss s' hex
+  exact loss_fails_aux s (reach_invB cb fb sch0) sch c hl ha hf hloss hex
+
+example :
+    let sch0 := [Label.check 0 false, .reg 0, .submit 0, .send 0, .drain 0, .check 1 false,
+                 .feed ((encodeFrame 0 [9]).take 17), .eof]
+    let s := run (init .fixed [] []) (sch0 ++ [.recv, .reg 1, .clr, .cl, .submit 1, .cl, .deliver 0, .send 1])
+    (s.lst, (s.calls 0).phase, (s.calls 1).phase, s.pending, ioIdle s, anyBlocked s)
+      = (.exited, .done (.exc .lost), .done .sendErr, [], true, false) := by decide
+
+theorem server_error_aux (s : St) (hA : InvA s) (hB : InvB s) (c : Nat) (hl : s.lst = .exited)
+    (hio : ∀ l : Label, l.isIo = true → enabled s l = false)
+    (h1 : (s.calls c).phase ≠ .idle) (h2 : (s.calls c).phase ≠ .checked)
+    (h3 : (s.calls c).phase ≠ .registered) (hnd : ∀ r, (c, r) ∉ s.delivered) :
+    ∃ o, (s.calls c).phase = .done o ∧ isOk o = false := by
+  have hb := no_stuck_waiter_aux s hB hl hio c
+  cases hp : (s.calls c).phase with
+  | idle => exact absurd hp h1
+  | checked => exact absurd hp h2
+  | registered => exact absurd hp h3
+  | submitted => rw [hp] at hb; simp [blocked] at hb
+  | sent => rw [hp] at hb; simp [blocked] at hb
+  | waiting => rw [hp] at hb; simp [blocked] at hb
+  | done o =>
+    refine ⟨o, rfl, ?_⟩
+    cases o with
+    | ok r => exact absurd (hA.okDelivered c r hp) (hnd r)
+    | _ => rfl
+
+/-- **server_error_propagates**: a server-side evaluation error is not answered — the server
+    closes the connection (probed live), i.e. no frame with the call's id is ever delivered.
+    Then, once the listener has exited and the io loop has nothing left to run, the call has
+    finished, and not with a value: it raised. -/
+theorem server_error_propagates (cb : Bytes) (fb : List Bytes) (sch : List Label) (c : Nat) :
+    let s := run (init .fixed cb fb) sch
+    s.lst = .exited → (∀ l : Label, l.isIo = true → enabled s l = false) →
+    (s.calls c).phase ≠ .idle → (s.calls c).phase ≠ .checked → (s.calls c).phase ≠ .registered →
+    (∀ r, (c, r) ∉ s.delivered) →
+    ∃ o, (s.calls c).phase = .done o ∧ isOk o = false := by
+  intro s hl hio h1 h2 h3 hnd
+  exact server_error_aux s (reach_invA .fixed cb fb sch) (reach_invB cb fb sch) c hl hio h1 h2 h3 hnd
+
+/-- when the server goes away the listener always has a step to take (it cannot sit on EOF) -/
+theorem eof_listener_progress (s : St) (hl : s.lst = .listening) (he : s.eof = true) :
+    enabled s .recv = true := by
+  simp only [enabled, step, hl]
+  by_cases hi : s.inErr = true
+  · simp [hi]
+  · simp only [hi]
+    cases hd : decodeFrame s.inbuf with
+    | none => simp [he]
+    | some f =>
+      obtain ⟨id, body, rest⟩ := f
+      simp only []
+      repeat' split
+      all_goals simp_all
+
+/-! ### the pinned cleanup loop violates `no_stuck_waiter` -/
+
+/-- the schedule of DESIGN §8: call 0 is waiting, call 1 has passed `is_open()`; the connection
+    is lost; the cleanup loop has created its iterator when call 1 registers -/
+def stuckSchedule : List Label :=
+  [.check 0 false, .reg 0, .submit 0, .send 0, .drain 0, .check 1 false, .eof, .recv, .reg 1, .cl,
+   .submit 1, .send 1]
+
+/-- **pinned_stuck_waiter**: every label of the schedule is enabled; the cleanup dies
+    (`RuntimeError: dictionary changed size during iteration`), the io loop has nothing left to
+    run, and call 0 is blocked on a future nobody will ever resolve -/
+theorem pinned_stuck_waiter :
+    (runStrict (init .pinned [] []) stuckSchedule).map
+      (fun s => (s.lst, (s.calls 0).phase, (s.calls 0).fut, (s.calls 1).phase, ioIdle s, anyBlocked s))
+    = some (.crashed, .waiting, .unres, .done .sendErr, true, true) := by decide
+
+theorem pinned_no_stuck_waiter_fails :
+    ¬ (∀ sch : List Label, let s := run (init .pinned [] []) sch
+        s.lst ≠ .listening → ioIdle s = true → anyBlocked s = false) := by
+  intro h
+  have := h stuckSchedule
+  revert this
+  decide
+
+/-- the same schedule on the repaired machine: label `cl` is not enabled where the pinned loop
+    died (`clr` comes first), and with the repaired steps nobody is left blocked -/
+example :
+    (runStrict (init .fixed [] []) stuckSchedule).isNone = true ∧
+    (let s := run (init .fixed [] [])
+        [.check 0 false, .reg 0, .submit 0, .send 0, .drain 0, .check 1 false, .eof, .recv, .reg 1,
+         .clr, .cl, .cl, .deliver 0, .submit 1, .send 1]
+     (s.lst, (s.calls 0).phase, (s.calls 1).phase, ioIdle s, anyBlocked s)
+       = (.exited, .done (.exc .lost), .done .sendErr, true, false)) := by decide
+
 end Klong.C14
